@@ -733,6 +733,7 @@ func scanPolyOut(c *core.Ctx) []ob {
 		n++
 		// source occurrences in that statement
 		asSource := false
+		opaque := false
 		var check func(e ast.Node, dest bool)
 		check = func(e ast.Node, dest bool) {
 			switch v := e.(type) {
@@ -760,6 +761,15 @@ func scanPolyOut(c *core.Ctx) []ob {
 				if id, ok := unparen(v.Fun).(*ast.Ident); ok && (id.Name == "len" || id.Name == "cap") {
 					return
 				}
+				// handed to a distributing helper together with a closure that says what happens to each operand
+				// (`r.forEachHalf(p1, p2, Poly{}, func(h half) { op(h.ring, h.p1, h.p2) })`): the position in the argument
+				// list says nothing about source or destination
+				for _, a := range v.Args {
+					if _, isLit := unparen(a).(*ast.FuncLit); isLit {
+						opaque = true
+						return
+					}
+				}
 				// the destination is the last polynomial operand (a function value or a flag may follow it)
 				lastPoly := len(v.Args) - 1
 				for i := len(v.Args) - 1; i >= 0; i-- {
@@ -783,7 +793,9 @@ func scanPolyOut(c *core.Ctx) []ob {
 		}
 		check(first, false)
 		key := "POLYOUT:" + fkey
-		if asSource {
+		if opaque && !asSource {
+			out = append(out, infoOb("POLYOUT", key, c.Rel(first.Pos()), "the output polynomial is first handed to a helper together with a closure: not decided"))
+		} else if asSource {
 			out = append(out, violOb("POLYOUT", key, c.Rel(first.Pos()), fmt.Sprintf("%s is documented to write its result into %s, yet the first statement that mentions %s uses it as a source (%s): the result depends on what the receiver held before", fkey, o.Name(), o.Name(), strings.SplitN(exprStringStmt(first), "\n", 2)[0])))
 		} else {
 			out = append(out, okOb("POLYOUT", key, c.Rel(first.Pos()), "the first use of the output polynomial is a write", true))
